@@ -296,7 +296,8 @@ func (c *Ctx) SigningRootProvenance(prop string) {
 			} else {
 				// accounts[j] is filled from preCheck at index j (checked by C06.O4 batch form); verify the stored value here
 				okFill := false
-				for _, f := range WithClosures(E) {
+				root = sg.ListOrigin(E, root)
+				for _, f := range sg.Unit(E) {
 					for _, b := range f.Blocks {
 						for _, ins := range b.Instrs {
 							st, ok := ins.(*ssa.Store)
@@ -322,6 +323,8 @@ func (c *Ctx) SigningRootProvenance(prop string) {
 				}
 				if okFill {
 					c.R.OK(rule4, Fn(F), c.Pos(site.Call), "signing account = accounts[i], filled from preCheck of request i")
+				} else {
+					c.R.Unknown(rule4, Fn(F), c.Pos(site.Call), "cannot find where accounts[i] is filled from the pre-check")
 				}
 			}
 		}
@@ -332,7 +335,7 @@ func (c *Ctx) SigningRootProvenance(prop string) {
 		E := sg.Endpoints[name]
 		okPK, okData := false, false
 		var pos ssa.Instruction
-		for _, f := range WithClosures(E) {
+		for _, f := range sg.Unit(E) {
 			for _, b := range f.Blocks {
 				for _, ins := range b.Instrs {
 					st, ok := ins.(*ssa.Store)
